@@ -177,6 +177,13 @@ fn layouts() -> Vec<(c02::Case, &'static str)> {
     v.push((c02::Case { cube10: true, w: 4, h: 4, mips: 1, ..base }, "cube"));
     v.push((c02::Case { cube10: true, w: 4, h: 4, mips: 3, ..base }, "cube_mips"));
     v.push((c02::Case { cube10: true, w: 4, h: 4, mips: 2, array: 2, ..base }, "cube_array"));
+    // faces need not be square: the cross arrangement is in units of the face width and height
+    v.push((c02::Case { cube10: true, w: 4, h: 6, mips: 2, ..base }, "cube_tall"));
+    v.push((c02::Case { cube10: true, w: 6, h: 2, mips: 1, ..base }, "cube_wide"));
+    for faces in [0b001000u32, 0b111111, 0b011010] {
+        v.push((c02::Case { dx10: false, w: 2, h: 5, mips: 1, caps2: 0x200 | (faces << 10), ..base }, "partial_cube_tall"));
+        v.push((c02::Case { dx10: false, w: 7, h: 3, mips: 2, caps2: 0x200 | (faces << 10), ..base }, "partial_cube_wide"));
+    }
     for faces in [0b000001u32, 0b000010, 0b101000, 0b110101, 0b011111, 0b100000, 0b000000, 0b111110] {
         v.push((c02::Case { dx10: false, w: 4, h: 4, mips: 2, caps2: 0x200 | (faces << 10), ..base }, "partial_cube"));
     }
